@@ -36,6 +36,8 @@ FUNCS = [
     ("createSimulants", "framework/population/manager.py", "PopulationManager", "_create_simulants"),
     ("resourceSortedNodes", "framework/resource.py", "ResourceManager", "sorted_nodes"),
     ("viewGet", "framework/population/population_view.py", "PopulationView", "get"),
+    ("viewUpdate", "framework/population/population_view.py", "PopulationView", "update"),
+    ("engineRun", "framework/engine.py", "SimulationContext", "run"),
     ("engineStep", "framework/engine.py", "SimulationContext", "step"),
     ("engineInitializeSimulants", "framework/engine.py", "SimulationContext", "initialize_simulants"),
     ("engineFinalize", "framework/engine.py", "SimulationContext", "finalize"),
@@ -139,6 +141,16 @@ def expr(n) -> str:
         if n.step is not None:
             return _other(n)
         return "(.slice %s %s)" % (expr(n.lower) if n.lower else ".noneE", expr(n.upper) if n.upper else ".noneE")
+    if isinstance(n, ast.DictComp) and len(n.generators) == 1 and not n.generators[0].ifs and not n.generators[0].is_async \
+            and isinstance(n.generators[0].target, ast.Name):
+        g = n.generators[0]
+        saved = set(_LOCALS)
+        _LOCALS.add(g.target.id)
+        try:
+            return "(.dictComp %s %s %s %s)" % (expr(n.key), expr(n.value), _q(g.target.id), expr(g.iter))
+        finally:
+            _LOCALS.clear()
+            _LOCALS.update(saved | {g.target.id})
     if isinstance(n, ast.IfExp):
         return "(.ifE %s %s %s)" % (expr(n.test), expr(n.body), expr(n.orelse))
     if isinstance(n, ast.Dict) and not n.keys:
@@ -206,6 +218,8 @@ def stmt(s) -> str:
     if isinstance(s, ast.Try) and not s.orelse and not s.finalbody and len(s.handlers) == 1 and s.handlers[0].name is None \
             and _exc_class(s.handlers[0].type) is not None:
         return "(.tryC %s %s %s)" % (block(s.body), _q(_exc_class(s.handlers[0].type)), block(s.handlers[0].body))
+    if isinstance(s, ast.While) and not s.orelse:
+        return "(.whileS %s %s)" % (expr(s.test), block(s.body))
     if isinstance(s, ast.Assert):
         return "(.assertS %s)" % expr(s.test)
     if isinstance(s, ast.Pass):
